@@ -37,6 +37,22 @@ void shim_push_result(void *results, unsigned cat_id, unsigned rule_id, int head
     ((std::vector<combinator_result> *)results)->push_back(r);
 }
 void *shim_new_cache() { return new cache_type(); }
+int shim_cache_len(void *c, unsigned x, unsigned y) {
+    auto *cc = (cache_type *)c;
+    std::pair<unsigned, unsigned> key(x, y);
+    if (cc->count(key) == 0) return -1;
+    return (int)cc->at(key).size();
+}
+int shim_cache_entry(void *c, unsigned x, unsigned y, unsigned i, unsigned *cat_id, unsigned *rule_id, int *head_is_left, char *op_string, char *op_symbol, unsigned buflen) {
+    auto *cc = (cache_type *)c;
+    std::pair<unsigned, unsigned> key(x, y);
+    if (cc->count(key) == 0 || i >= cc->at(key).size()) return -1;
+    const combinator_result &r = cc->at(key)[i];
+    *cat_id = r.cat_id; *rule_id = r.rule_id; *head_is_left = r.head_is_left ? 1 : 0;
+    std::strncpy(op_string, r.op_string.c_str(), buflen - 1); op_string[buflen - 1] = 0;
+    std::strncpy(op_symbol, r.op_symbol.c_str(), buflen - 1); op_symbol[buflen - 1] = 0;
+    return 0;
+}
 void shim_free_cache(void *c) { delete (cache_type *)c; }
 unsigned shim_sizeof_item() { return sizeof(parsing::cell_item); }
 int shim_parse(float *tag, float *dep, unsigned length, unsigned *roots, unsigned nroots, py_rules_cb bin, py_rules_cb un, py_fin_cb fin,
@@ -112,6 +128,11 @@ def lib():
     L = ctypes.CDLL(so)
     L.shim_new_cache.restype = ctypes.c_void_p
     L.shim_free_cache.argtypes = [ctypes.c_void_p]
+    L.shim_cache_len.argtypes = [ctypes.c_void_p, ctypes.c_uint, ctypes.c_uint]
+    L.shim_cache_len.restype = ctypes.c_int
+    L.shim_cache_entry.argtypes = [ctypes.c_void_p, ctypes.c_uint, ctypes.c_uint, ctypes.c_uint, ctypes.POINTER(ctypes.c_uint), ctypes.POINTER(ctypes.c_uint),
+                                   ctypes.POINTER(ctypes.c_int), ctypes.c_char_p, ctypes.c_char_p, ctypes.c_uint]
+    L.shim_cache_entry.restype = ctypes.c_int
     L.shim_push_result.argtypes = [ctypes.c_void_p, ctypes.c_uint, ctypes.c_uint, ctypes.c_int, ctypes.c_char_p, ctypes.c_char_p]
     L.shim_parse.argtypes = [ctypes.c_void_p, ctypes.c_void_p, ctypes.c_uint, ctypes.POINTER(ctypes.c_uint), ctypes.c_uint, RULES_CB, RULES_CB, FIN_CB,
                              ctypes.c_void_p, ctypes.c_uint, ctypes.c_float, ctypes.c_float, ctypes.c_int, ctypes.c_uint, ctypes.c_uint, ctypes.c_uint]
@@ -216,9 +237,31 @@ class _Pair:
         return (self.first & 0xFFFFFFFF, self.second & 0xFFFFFFFF)      # the fields are C `unsigned`: -1 is UINT_MAX
 
 
-class _PyCache(dict):
+class _CVec:
+    """cache[0][key]: the vector stored in the REAL C++ cache (not a python mirror)"""
+    def __init__(self, cache, key):
+        self.cache, self.key = cache, key
+
+    def __len__(self):
+        return max(0, lib().shim_cache_len(self.cache.handle, self.key[0], self.key[1]))
+
+    def __getitem__(self, i):
+        a, b, h = ctypes.c_uint(), ctypes.c_uint(), ctypes.c_int()
+        s1, s2 = ctypes.create_string_buffer(256), ctypes.create_string_buffer(256)
+        if i < 0 or lib().shim_cache_entry(self.cache.handle, self.key[0], self.key[1], i, ctypes.byref(a), ctypes.byref(b), ctypes.byref(h), s1, s2, 256) != 0:
+            raise IndexError(f'rule index {i} outside the cached result vector of {self.key} (undefined behaviour in C++)')
+        return _Rec(cat_id=a.value, rule_id=b.value, head_is_left=bool(h.value), op_string=s1.value, op_symbol=s2.value)
+
+
+class _PyCache:
+    def __init__(self, cache):
+        self.cache = cache
+
     def __getitem__(self, k):
-        return dict.__getitem__(self, k.key() if isinstance(k, _Pair) else k)
+        key = k.key() if isinstance(k, _Pair) else k
+        if lib().shim_cache_len(self.cache.handle, key[0], key[1]) < 0:
+            raise KeyError(f'{key} not in the rule cache (operator[] would insert an empty vector in C++)')
+        return _CVec(self.cache, key)
 
 
 class _Vec(list):
@@ -301,7 +344,7 @@ def pyx_module():
         def fin(item, tok):
             try:
                 token_id = [tok.contents.value]
-                retrieve_tree(_CItem(item), token_id, [_PyCache(cache.py)], finalizer_args)
+                retrieve_tree(_CItem(item), token_id, [_PyCache(cache)], finalizer_args)
                 return 0
             except Exception as e:       # noqa
                 errors.append('finalizer: ' + repr(e))
